@@ -118,6 +118,16 @@ def arrivalsStayExposed (pre post : Cell) : Bool :=
   decide (post.i = pre.i) && decide (post.mort = pre.mort) && decide (post.e.dropLast = pre.e.dropLast) &&
   decide (post.te - pre.te = pre.s - post.s) && decide (sumL post.e - sumL pre.e = pre.s - post.s)
 
+/-- C05 over a model step that is not a spread step: exposed cohorts do not age (no cohort grows, the
+    cohort vector keeps its length) and no host becomes infected - whatever lethal temperature,
+    survival rate, treatments and mortality do in that step only takes hosts out of these classes. -/
+def exposedFrozen (pre post : Cell) : Bool :=
+  decide (post.e.length = pre.e.length) && (List.zip pre.e post.e).all (fun p => decide (p.2 ≤ p.1)) &&
+  decide (post.i ≤ pre.i)
+
+def offSeasonFrame (pre post : List Cell) : Bool :=
+  decide (post.length = pre.length) && (List.zip pre post).all (fun p => exposedFrozen p.1 p.2)
+
 /-- C12 lethal temperature at one cell: colder than the threshold -> all infected back to
     susceptible (mortality cohorts reduced by a valid draw), exposed untouched; otherwise unchanged. -/
 def lethalSpec (cold : Bool) (pre post : Cell) : Bool :=
